@@ -505,18 +505,15 @@ def split_ans(line):
 
 # ------------------------------------------------------------------ shape checks on src/ser.rs (literals hard-coded in Model/Ser.v)
 SER_LITERALS = [
-    (1, 'writer.write_all(b"null")'), (1, 'b"true" as &[u8]'), (1, 'b"false" as &[u8]'), (2, 'writer.write_all(b"\\"")'),
-    (2, 'writer.write_all(b"[")'), (2, 'writer.write_all(b"]")'), (2, 'writer.write_all(b"{")'), (2, 'writer.write_all(b"}")'),
-    (2, 'writer.write_all(b",")'), (1, 'writer.write_all(b":")'), (1, 'writer.write_all(b": ")'),
-    (2, 'tri!(writer.write_all(if first { b"\\n" } else { b",\\n" }));'), (2, 'tri!(writer.write_all(b"\\n"));'),
-    (2, 'tri!(indent(writer, self.current_indent, self.indent));'), (2, 'indent(writer, self.current_indent, self.indent)'),
+    # (the Formatter method bodies — brackets, separators, indentation, has_value / current_indent bookkeeping, write_null, the
+    #  string quotes, fn indent, write_bool — are no longer pinned here: tools/translate_fmt.py translates them into
+    #  Gen/FmtTables.v on every run and Proofs/SerFmt.v proves Model/Ser.v equal to them)
     (1, 'Quote => b"\\\\\\"",'), (1, 'ReverseSolidus => b"\\\\\\\\",'), (1, 'Backspace => b"\\\\b",'), (1, 'FormFeed => b"\\\\f",'),
     (1, 'LineFeed => b"\\\\n",'), (1, 'CarriageReturn => b"\\\\r",'), (1, 'Tab => b"\\\\t",'),
     (1, 'static HEX_DIGITS: [u8; 16] = *b"0123456789abcdef";'), (1, "b'\\\\',"), (1, "b'u',"), (2, "b'0',"),
     (1, 'HEX_DIGITS[(byte >> 4) as usize],'), (1, 'HEX_DIGITS[(byte & 0xF) as usize],'),
-    (2, 'if len == Some(0) {'), (1, 'PrettyFormatter::with_indent(b"  ")'), (1, 'for _ in 0..n {'), (1, 'tri!(wr.write_all(s));'),
-    (2, 'self.current_indent += 1;'), (2, 'self.current_indent -= 1;'), (2, 'self.has_value = false;'), (2, 'self.has_value = true;'),
-    (2, 'if self.has_value {'), (1, 'self::BB => CharEscape::Backspace,'), (1, 'self::TT => CharEscape::Tab,'), (1, 'self::NN => CharEscape::LineFeed,'),
+    (2, 'if len == Some(0) {'), (1, 'PrettyFormatter::with_indent(b"  ")'),
+    (1, 'self::BB => CharEscape::Backspace,'), (1, 'self::TT => CharEscape::Tab,'), (1, 'self::NN => CharEscape::LineFeed,'),
     (1, 'self::FF => CharEscape::FormFeed,'), (1, 'self::RR => CharEscape::CarriageReturn,'), (1, 'self::QU => CharEscape::Quote,'),
     (1, 'self::BS => CharEscape::ReverseSolidus,'), (1, 'self::UU => CharEscape::AsciiControl(byte),'),
 ]
